@@ -20,6 +20,7 @@ package main
 // and the same final caller options.
 
 import (
+	"crypto/rsa"
 	"crypto/x509"
 	"fmt"
 	"google.golang.org/protobuf/proto"
@@ -123,7 +124,24 @@ func runC09(c *Ctx) {
 	}
 	e3 := c01FromParts(p3, append([]byte(nil), e0.msg.Signature...))
 	e4 := c01FromParts(e1.msg.SerializedUefiGolden, append([]byte(nil), e0.msg.Signature...))
-	endos := []*c01Endo{e0, e1, e2, e3, e4}
+	// E5 = an endorsement listing the unendorsed measurement, signed by a FRESH key whose self-signed certificate
+	// copies the genuine signer certificate's issuer name and serial number: rejected by a fresh validator (the
+	// certificate does not chain); a validator that remembers "this signer was already chained" by less than the
+	// whole certificate accepts it after a genuine E0.
+	fk, err := rsa.GenerateKey(env.crng, 2048)
+	if err != nil {
+		panic(err)
+	}
+	ftpl := &x509.Certificate{Subject: env.leafA.Issuer, SerialNumber: env.leafA.SerialNumber, NotBefore: env.leafA.NotBefore,
+		NotAfter: env.leafA.NotAfter, KeyUsage: x509.KeyUsageDigitalSignature, SignatureAlgorithm: x509.SHA256WithRSAPSS}
+	fder, err := x509.CreateCertificate(env.crng, ftpl, ftpl, fk.Public(), fk)
+	if err != nil {
+		panic(err)
+	}
+	g5 := c01Clone(g3)
+	g5.Cert = fder
+	e5 := c01Resign(env.crng, g5, fk)
+	endos := []*c01Endo{e0, e1, e2, e3, e4, e5}
 	var factLine strings.Builder
 	for i, e := range endos {
 		factLine.WriteString(c01IndependentFacts(e, roots, now).line(i))
@@ -142,6 +160,7 @@ func runC09(c *Ctx) {
 		{"endorsed-measurement-forged-E2", att(env.meas1), hx(env.meas1), e2.container, "2", false, false},
 		{"unendorsed-with-edited-golden-under-E0-signature", att(unend), hx(unend), e3.container, "3", false, false},
 		{"E1-payload-under-E0-signature", att(meas2), hx(meas2), e4.container, "4", false, false},
+		{"unendorsed-with-forged-cert-same-issuer-and-serial", att(unend), hx(unend), e5.container, "5", false, false},
 		{"nil-attestation", nil, "nil", e0.container, "0", false, false},
 		{"short-measurement", att(env.meas1[:40]), hx(env.meas1[:40]), e0.container, "0", false, false},
 	}
